@@ -1,5 +1,6 @@
-/* kl_hold.c - LD_PRELOAD shim for C07: a sync point in the forked child of
- * robsd-exec, placed before setsid(2), without touching the source.
+/* kl_hold.c - LD_PRELOAD shim for C07: (1) a sync point in the forked child of
+ * robsd-exec, placed before setsid(2), without touching the source; (2) a log of
+ * the kill(2) calls (see below).
  *
  * step_fork's child calls setsid(), then closes its end of the handshake pipe
  * and execs the step.  With ROBSD_VERIF_HOLD=child.before_setsid and
@@ -20,6 +21,43 @@
 #include <stdlib.h>
 #include <string.h>
 #include <unistd.h>
+
+/*
+ * kill(2), observed: with ROBSD_VERIF_KILLLOG naming a file, every call of
+ * kill() made by a process that has this object preloaded is appended to it as
+ * "<caller pid> <target> <signal> <result>\n" after the real call returned.  The
+ * scheduler reads from it which signals the RUNNER sent to the step's process
+ * group - independently of what the runner prints (warnx texts are free to
+ * change).  One write(2) per line, O_APPEND: lines of concurrent callers do not
+ * mix.
+ */
+int
+kill(pid_t pid, int sig)
+{
+	static int (*real)(pid_t, int);
+	const char *log;
+	int r, saved_errno;
+
+	if (!real)
+		real = (int (*)(pid_t, int))dlsym(RTLD_NEXT, "kill");
+	r = real(pid, sig);
+	saved_errno = errno;
+	log = getenv("ROBSD_VERIF_KILLLOG");
+	if (log != NULL) {
+		char buf[96];
+		int fd, n;
+
+		n = snprintf(buf, sizeof(buf), "%ld %ld %d %d\n", (long)getpid(), (long)pid, sig, r);
+		fd = open(log, O_WRONLY | O_APPEND | O_CREAT, 0644);
+		if (fd != -1) {
+			if (n > 0 && write(fd, buf, (size_t)n) == -1)
+				n = 0;
+			close(fd);
+		}
+	}
+	errno = saved_errno;
+	return r;
+}
 
 pid_t
 setsid(void)
